@@ -497,14 +497,17 @@ def cfg_defined(data: bytes, d: Path):
         p.unlink()
 
 
-def par_eval(ctx, name, case_type, cases, checks, chunk=100, workers=6):
+IMPORTS_WM = IMPORTS + "From CM Require Import Harness.C14_wm_run.\n"
+
+
+def par_eval(ctx, name, case_type, cases, checks, chunk=100, workers=6, imports=None):
     """core.eval_bad_indices over slices of the case list in parallel (one coqc per slice)."""
     slices = [(off, cases[off:off + chunk]) for off in range(0, len(cases), chunk)]
     bad = {c: [] for c in checks}
 
     def one(s):
         off, part = s
-        return off, core.eval_bad_indices(ctx, f"{name}_{off}", IMPORTS, case_type, part, checks, chunk=chunk)
+        return off, core.eval_bad_indices(ctx, f"{name}_{off}", imports or IMPORTS, case_type, part, checks, chunk=chunk)
     with ThreadPoolExecutor(max_workers=workers) as ex:
         for off, res in ex.map(one, slices):
             for c in checks:
@@ -631,12 +634,23 @@ def part_req(ctx, n):
     for j in junk:
         cases.append(("malformed", j, gen_deps(rng), False, {"malformed"}))
 
-    coq_cases, clean_cases, meta = [], [], []
+    coq_cases, clean_cases, names_cases, meta = [], [], [], []
     for desc, text, deps, dry, tags in cases:
         data = text.encode("utf-8")
         dt = [dep_tuple(d) for d in deps]
         for nm, ln in dt:
-            assert "\n" not in ln and "\r" not in ln and canon(Requirement(ln).name) == canon(nm), "dependency contract"
+            # [line_contract] of C09_stores_reparse_manifest / lines_guard of W_manifest, on the real dependency objects
+            I0 = impl()
+            kept = I0["RequirementsTxtParser"](Path("."))._clean_lines([ln])
+            ok = len(ln.splitlines()) == 1 and ln.splitlines()[0] == ln and len(kept) == 1
+            if ok:
+                try:
+                    ok = canon(Requirement(next(iter(kept))).name) == canon(nm)
+                except InvalidRequirement:
+                    ok = False
+            if not ok:
+                ctx.mismatch("oracle contract line_contract (packaging parses an appended requirement line back to its name)",
+                             f"dependency {nm!r} with line {ln!r}", {"kind": "req", "text": "", "deps": []})
         r = run_writer(ctx, "requirements.txt", data, deps, dry)
         for t in tags:
             ctx.count("req:" + t.split(":")[0] + (":" + t.split(":")[1] if ":" in t else ""))
@@ -659,13 +673,37 @@ def part_req(ctx, n):
         I = impl()
         observed_clean = sorted(I["RequirementsTxtParser"](Path("."))._clean_lines(text.splitlines()))
         clean_cases.append(cpair(cstr(text), clist([cstr(x) for x in observed_clean], "str")))
+        tbl = []
+        for cl in observed_clean:
+            try:
+                nm = canon(Requirement(cl).name)
+            except InvalidRequirement:
+                nm = None
+            tbl.append(cpair(cstr(cl), copt(None if nm is None else cstr(nm), "str")))
+        if text.startswith("\ufeff"):
+            ctx.count("req_names:bom_outside_parser_model")     # the parser decodes the BOM away (chardet: utf-8-sig), covers_m excludes it
+            names_cases.append(cpair(cstr(""), clist([], "str"), clist([], "str * option str")))
+        else:
+            names_cases.append(cpair(cstr(text), clist([cstr(canon(x)) for x in r["names"]], "str"), clist(tbl, "str * option str")))
         meta.append({"desc": desc, "text": text, "deps": dt, "dep_keys": [k for d in deps for k, v in dep_pool().items() if v is d],
                      "dry": dry, "res": r, "after": after, "ref_names": ref_names, "ref_reqs": ref_reqs, "continued": continued, "malformed": malformed, "tags": tags})
         ctx.case({"requirements.txt": text, "deps": [l for _, l in dt], "dry_run": dry, "after": after},
                  nontrivial_key=("req", text, tuple(dt), dry) if (r["kind"] == 2 or any(canon(nm) in {canon(x) for x in r["names"]} for nm, _ in dt)) else None,
                  sample=(r["kind"] == 2 and len(text) > 20 and not malformed))
 
-    bad = par_eval(ctx, "c14_req", "req_case", coq_cases, ["req_model_ok", "req_spec_ok", "req_spec_ok_mod_nl"], chunk=60)
+    bad = par_eval(ctx, "c14_req", "req_case", coq_cases, ["req_model_ok", "req_spec_ok", "req_spec_ok_mod_nl", "wm_req_sound", "wm_req_covers"],
+                   chunk=60, imports=IMPORTS_WM)
+    badn = par_eval(ctx, "c14_names", "names_case", names_cases, ["names_model_ok"], chunk=100, imports=IMPORTS_WM)
+    for i in badn["names_model_ok"]:
+        m = meta[i]
+        ctx.mismatch("RequirementsTxtParser (names held by the store) vs Model.ManifestRun.names_req",
+                     f"names held {m['res']['names']} for {m['text']!r}", {"kind": "req", "text": m["text"], "deps": m["dep_keys"]})
+    for key, what in (("wm_req_sound", "answers another content than the writer wrote"), ("wm_req_covers", "does not answer on an LF manifest the writer updated")):
+        for i in bad[key]:
+            m = meta[i]
+            ctx.mismatch("RequirementsTxtWriter vs Model.ManifestRun.W_manifest (writer oracle of C03/C09 corollaries)",
+                         f"W_manifest {what}: text={m['text']!r} deps={m['deps']} after={m['after']!r}",
+                         {"kind": "req", "text": m["text"], "deps": m["dep_keys"], "dry_run": m["dry"]})
     badc = par_eval(ctx, "c14_clean", "clean_case", clean_cases, ["clean_model_ok"], chunk=100)
     for i in badc["clean_model_ok"]:
         m = meta[i]
@@ -766,7 +804,24 @@ def part_cfg(ctx, n):
                  sample=(r["kind"] == 2 and not dry and "malformed" not in tags and len(ctx.samples) < 4))
 
     bad = par_eval(ctx, "c14_cfg", "cfg_case", coq_cases,
-                   ["cfg_model_ok", "cfg_spec_ok", "cfg_spec_ok_mod_nl", "cfg_guard_unique", "cfg_dupline_predicted", "cfg_inline_predicted"], chunk=50)
+                   ["cfg_model_ok", "cfg_spec_ok", "cfg_spec_ok_mod_nl", "cfg_guard_unique", "cfg_dupline_predicted", "cfg_inline_predicted",
+                    "wm_cfg_sound", "wm_cfg_covers"], chunk=50, imports=IMPORTS_WM)
+    uncovered = set(bad["wm_cfg_covers"])
+    for i in bad["wm_cfg_sound"]:
+        m = meta[i]
+        ctx.mismatch("SetupCfgWriter vs Model.ManifestRun.W_manifest (writer oracle of C03/C09 corollaries)",
+                     f"W_manifest answers another content than the writer wrote: text={m['text']!r} deps={m['deps']} after={m['after']!r}",
+                     {"kind": "cfg", "text": m["text"], "deps": m["dep_keys"], "dry_run": m["dry"]})
+    for i, m in enumerate(meta):
+        # inside its guard (LF manifest, dangling list, clean insertion) the oracle must answer; outside it is counted
+        inside = ("\r" not in m["text"] and m["res"]["kind"] == 2 and m["info"]["form"] == "multiline" and not m["malformed"]
+                  and i not in set(bad["cfg_spec_ok"]))
+        if m["res"]["kind"] == 2:
+            ctx.count("cfg_writer_oracle:" + ("answers" if i not in uncovered else "outside_guard"))
+        if inside and i in uncovered:
+            ctx.mismatch("SetupCfgWriter vs Model.ManifestRun.W_manifest (writer oracle of C03/C09 corollaries)",
+                         f"W_manifest does not answer although the manifest is LF, the list dangling and the insertion clean: {m['text']!r} + {m['deps']}",
+                         {"kind": "cfg", "text": m["text"], "deps": m["dep_keys"], "dry_run": m["dry"]})
     for i in bad["cfg_model_ok"]:
         m = meta[i]
         ctx.mismatch("SetupCfgWriter.write vs Model.Manifest.cfg_write",
